@@ -249,7 +249,7 @@ RM_SPECS = {
                 rule="histories of lifecycle-valid NRI requests generated from VERIF_SEED on catalogue machines under random accepted topology-aware configurations; monitors run after every request; non-trivial = post-request state with >=2 live containers and >=1 exclusive grant, distinct by (machine, config generation, sorted exclusive-grant shapes, live count)"),
     "C02": dict(policies=[BLN], bias="mix", machines=RM_MACHINES_QUICK, floors={"c02_states_nonempty": 200, "c02_idle_scope_checked": 100, "c02_hidden_ht_checked": 20},
                 rule="histories under random balloons configurations; non-trivial = post-request state with >=2 live containers and >=1 non-empty balloon, distinct by (machine, config generation, sorted (type, #cpus, #shared idle, #members))"),
-    "C03": dict(policies=[TA], bias="fill", machines=RM_MACHINES_QUICK, floors={"c03_tight_states": 200, "c03_grants_mixed": 20, "c03_grants_multi": 20, "create_failed": 200, "c03_grants_isolated": 300},
+    "C03": dict(policies=[TA], bias="fill", machines=RM_MACHINES_QUICK, floors={"c03_tight_states": 200, "c03_grants_mixed": 20, "c03_grants_multi": 20, "create_failed": 200, "c03_grants_isolated": 50},
                 rule="fill-biased histories; non-trivial = state where some pool has <1000m allocatable shared CPU or a request already failed for capacity; distinct by (machine, config generation, live container shapes incl. told cpusets)"),
     "C04": dict(policies=[TA, BLN], bias="mem", machines=MEM_MACHINES, floors={"c04_states_with_widened_zones": 100, "c04_pinned_checked": 500},
                 rule="memory-pressure histories on machines with DRAM/PMEM/HBM, CPU-less, movable-only and memory-less nodes; non-trivial = state in which some allocation spans >1 node (zone widened); distinct by (machine, #allocations, multiset of (zone mask, size MiB))"),
